@@ -220,6 +220,7 @@ type State struct {
 	held      []string          // mutex keys currently held (all threads)
 	dom       map[int32]*byteDom // allowed values of 8-bit inputs (from single-variable conjuncts)
 	linked    map[int32]bool     // variables occurring in multi-variable conjuncts
+	wide      map[int32]*wideDom // explicit small domains of wider variables
 	domOwned  bool
 	lastSec   *Term
 	lastNsec  *Term
@@ -270,7 +271,7 @@ func (s *State) fork() *State {
 	n.sideStr = s.sideStr
 	n.held = s.held
 	n.lastSec, n.lastNsec, n.fresh = s.lastSec, s.lastNsec, s.fresh
-	n.dom, n.linked, n.domOwned = s.dom, s.linked, false
+	n.dom, n.linked, n.wide, n.domOwned = s.dom, s.linked, s.wide, false
 	s.domOwned = false
 	n.threads = make([]*Thread, len(s.threads))
 	for i, t := range s.threads {
